@@ -2,10 +2,10 @@ CONSTANTS
   MaxObjs = 2
   MaxOps = 3
   MaxSteps = 4
-  JsonTree = FALSE
+  JsonTree = TRUE
   StatusOnly = FALSE
   RemoveDrops = FALSE
 INIT Init
 NEXT Next
 VIEW view
-INVARIANTS QueriesAgree CacheCoherent EmitInv
+INVARIANTS QueriesAgree
